@@ -23,6 +23,13 @@ func Enable() {
 	}
 }
 
+// EnableFS routes every engine opened afterwards to the given filesystem (a crashfs.Router
+// with one crash-capturing volume per database), with the same option tweaks as Enable.
+func EnableFS(fs vfs.FS) {
+	Enable()
+	engine.VerifFS = fs
+}
+
 // Disable restores the real filesystem for engines opened afterwards.
 func Disable() {
 	engine.VerifFS = nil
